@@ -282,7 +282,8 @@ type c17Payload struct {
 }
 
 type c17Matcher struct {
-	hostile bool
+	hostile     bool
+	streamFirst bool // register the stream parser before the regex
 	calls   []c17Call
 	kept    []*ds.VMValue
 	shared  *ds.VMValue
@@ -334,7 +335,18 @@ func (m *c17Matcher) noteGroups(groups []string) {
 	}
 }
 
+// the two syntaxes do not overlap (`E<digits>` / `#<digits>`), so the order of registration must not matter
 func (m *c17Matcher) install(vm *ds.Context) {
+	if m.streamFirst {
+		m.installHash(vm)
+		m.installE(vm)
+		return
+	}
+	m.installE(vm)
+	m.installHash(vm)
+}
+
+func (m *c17Matcher) installE(vm *ds.Context) {
 	_ = vm.RegCustomDice(`E(\d+)`, func(ctx *ds.Context, groups []string, payload any) (*ds.VMValue, string, error) {
 		c := c17Call{Which: "E", Groups: append([]string{}, groups...), PayNil: payload == nil, Depth: ctx.Depth()}
 		m.noteGroups(groups)
@@ -352,6 +364,9 @@ func (m *c17Matcher) install(vm *ds.Context) {
 		}
 		return r, text, nil
 	})
+}
+
+func (m *c17Matcher) installHash(vm *ds.Context) {
 	_ = vm.RegCustomDiceParser(func(ctx *ds.Context, s *ds.CustomDiceStream) (*ds.CustomDiceParseResult, error) {
 		m.parses++
 		total := len(s.Remaining())
@@ -471,7 +486,9 @@ func init() {
 			}
 			host := &c17Matcher{hostile: true}
 			o2 := c17Observe(c17VM(sb, string(pre), host.install), string(raw), host.afterRun)
-			row := map[string]any{"clean": o1, "hostile": o2, "same": o1 == o2, "calls": clean.calls, "calls2": host.calls,
+			swapped := &c17Matcher{streamFirst: true}
+			o3 := c17Observe(c17VM(sb, string(pre), swapped.install), string(raw), nil)
+			row := map[string]any{"order_same": o3 == o1, "swapped": o3, "clean": o1, "hostile": o2, "same": o1 == o2, "calls": clean.calls, "calls2": host.calls,
 				"parses": clean.parses, "len": len(raw), "stable": stable, "seed": hexs(sb)}
 			if len(ref) > 0 {
 				row["ref"] = c17Observe(c17VM(sb, string(pre), nil), string(ref), nil)
